@@ -3,6 +3,7 @@ import Marwood.Lemmas.SimRefl
 import Marwood.Lemmas.SimObs
 import Marwood.Lemmas.GoodDemo
 import Marwood.Lemmas.VmOkDemo
+import Marwood.Lemmas.ProcInvMain
 /-!
 # C13 — sliced execution is equivalent to uninterrupted execution
 
@@ -500,6 +501,56 @@ example (bs : List Nat) (hpos : ∀ b ∈ bs, 1 ≤ b) (hsum : 1 ≤ bs.sum) :
       runSliced (machine failingExt false) bs (sHalt 0) = .done s2 ∧ resultObs 5 s1 = resultObs 5 s2 :=
   sliced_value_eq_uninterrupted_wf failingExt false failingExt_laws failingExt_good failingExt_codeLawsV (sHalt 0)
     (sHalt_vmOk _ _) (sHalt_sizeBounded _) (sHalt_calleeOkAlong _) 1 (sHalt 1) rfl bs hpos hsum 5
+
+/-! ### T13.3 without `CalleeOkAlong`: the callee guard is a theorem
+
+`Lemmas/ProcInv*.lean`: the two heap-invariant clauses "every closure cell's lambda is procedure code" and "no value
+(`acc`, live stack cell, global slot, environment slot, vector element, car / cdr, continuation stack copy, MOVIMM /
+PUSHIMM immediate, symbol-table entry) points to entry code" (`PInv`; executable form `Vm/ProcInv.lean: statePB`,
+evaluated on every real state by the stream `safe-side-conditions`) are preserved by every opcode of the real
+machine and by the collector, and imply the callee guard (`calleeOk_of_pinv`). Hence `CalleeOkAlong` follows from
+`PInv` of the INITIAL state (`calleeOkAlong_of_vmOk`). Hypotheses that remain: the laws of the unmodelled parts
+(`ExtLaws`, `ExtGood`, `ExtCodeLawsV`, and the new `ExtProc`: builtins / `eval`'s compiler / VPUSH create no entry
+code and return nothing that leads to entry code), `VmOk` and `PInv` of the initial state, and `SizeBounded`. -/
+
+/-- the always-failing parameter set satisfies the new law vacuously -/
+theorem failingExt_proc : ExtProc failingExt :=
+  ⟨fun _ _ _ _ _ _ _ h => (by cases h), fun _ _ _ _ _ _ h => (by cases h), fun _ _ _ _ _ _ _ h => (by cases h)⟩
+
+/-- **T13.3, closed**: no hypothesis along the run besides the physical size bound -/
+theorem sliced_value_eq_uninterrupted_closed (ext : ExtOps) (force : Bool) (o : ExtLaws ext) (eg : ExtGood ext)
+    (ecl : ExtCodeLawsV ext) (ep : ExtProc ext) (s0 : St CHeap) (h0 : VmOk ext ecl s0) (p0 : PInv s0)
+    (sb : SizeBounded (machine ext force) s0) (k : Nat) (t' : St CHeap)
+    (hk : pureN (machine ext force) k s0 = .done t')
+    (bs : List Nat) (hpos : ∀ b ∈ bs, 1 ≤ b) (hsum : k ≤ bs.sum) (fuel : Nat) :
+    ∃ s1 s2, run (machine ext force) k s0 = .done s1 ∧ runSliced (machine ext force) bs s0 = .done s2 ∧
+      resultObs fuel s1 = resultObs fuel s2 :=
+  sliced_value_eq_uninterrupted_wf ext force o eg ecl s0 h0 sb (calleeOkAlong_of_vmOk force o eg ep h0 p0 sb) k t' hk
+    bs hpos hsum fuel
+
+/-- … and for an evaluation that fails -/
+theorem sliced_error_eq_uninterrupted_closed (ext : ExtOps) (force : Bool) (o : ExtLaws ext) (eg : ExtGood ext)
+    (ecl : ExtCodeLawsV ext) (ep : ExtProc ext) (s0 : St CHeap) (h0 : VmOk ext ecl s0) (p0 : PInv s0)
+    (sb : SizeBounded (machine ext force) s0) (k : Nat) (e : Fault) (t' : St CHeap)
+    (hk : pureN (machine ext force) k s0 = .error e t')
+    (bs : List Nat) (hpos : ∀ b ∈ bs, 1 ≤ b) (hsum : k ≤ bs.sum) :
+    ∃ s1 s2, run (machine ext force) k s0 = .error e s1 ∧ runSliced (machine ext force) bs s0 = .error e s2 ∧
+      R (machine ext force) s1 t' ∧ R (machine ext force) s2 t' :=
+  sliced_error_eq_uninterrupted_wf ext force o eg ecl s0 h0 sb (calleeOkAlong_of_vmOk force o eg ep h0 p0 sb) k e t'
+    hk bs hpos hsum
+
+open Marwood.Lemmas.Good.Demo in
+/-- non-vacuity: every hypothesis holds of the demo state (the clause `PInv` through the executable check) -/
+example : ExtProc failingExt ∧ VmOk failingExt failingExt_codeLawsV (sHalt 0) ∧ PInv (sHalt 0) ∧
+    SizeBounded (machine failingExt false) (sHalt 0) :=
+  ⟨failingExt_proc, sHalt_vmOk _ _, sHalt_pinv 0, sHalt_sizeBounded _⟩
+
+open Marwood.Lemmas.Good.Demo in
+example (bs : List Nat) (hpos : ∀ b ∈ bs, 1 ≤ b) (hsum : 1 ≤ bs.sum) :
+    ∃ s1 s2, run (machine failingExt false) 1 (sHalt 0) = .done s1 ∧
+      runSliced (machine failingExt false) bs (sHalt 0) = .done s2 ∧ resultObs 5 s1 = resultObs 5 s2 :=
+  sliced_value_eq_uninterrupted_closed failingExt false failingExt_laws failingExt_good failingExt_codeLawsV
+    failingExt_proc (sHalt 0) (sHalt_vmOk _ _) (sHalt_pinv 0) (sHalt_sizeBounded _) 1 (sHalt 1) rfl bs hpos hsum 5
 
 end ConcreteInv
 
